@@ -72,6 +72,7 @@ func (p *storageProvider) acquireLock() error {
 	}
 
 	// Write process ID to lock file for debugging
+	verifPoint("lock.created", lockPath)
 	if _, err := lockFile.WriteString(fmt.Sprintf("%d\n", os.Getpid())); err != nil {
 		lockFile.Close()
 		os.Remove(lockPath)
@@ -232,6 +233,7 @@ func (p *storageProvider) deleteSegment(segmentID uint64) error {
 	var errs []error
 
 	for _, file := range files {
+		verifPoint("crash:delete.before", file)
 		if err := os.Remove(file); err != nil && !os.IsNotExist(err) {
 			errs = append(errs, fmt.Errorf("failed to delete %s: %w", file, err))
 		}
